@@ -185,7 +185,7 @@ func init() {
 					cs = append(cs, fw.Case{ID: fmt.Sprintf("subgroup/%d", n), Kind: "subgroup", P: map[string]any{"n": n}})
 				}
 				cs = append(cs, fw.Case{ID: "subgroup/15", Kind: "subgroup", P: map[string]any{"n": 15}})
-				nv := 12
+				nv := 60
 				if !ctx.Quick {
 					nv = 300
 				}
